@@ -40,7 +40,9 @@ def gen_step(rng, d, n):
     if op in ('getitem', 'delitem', 'pop'): s['i'] = idx()
     if op in ('getslice', 'delslice'): s['k'] = sl()
     if op == 'setitem': s.update(i=idx(), v=rand_item(rng, d))
-    if op == 'setslice': s.update(k=sl(), vs=[rand_item(rng, d) for _ in range(rng.randrange(0, 4))])
+    if op == 'setslice':
+        s.update(k=sl(), vs=[rand_item(rng, d) for _ in range(rng.randrange(0, 4))])
+        if rng.random() < 0.3: s['operand'] = rng.choice(['array', 'array_trailing', 'tuple', 'generator'])      # the values given as another Array (also one with trailing bits), a tuple, a generator
     if op == 'append': s['v'] = rand_item(rng, d)
     if op == 'extend':
         s['vs'] = [rand_item(rng, d) for _ in range(rng.randrange(0, 4))]
@@ -59,6 +61,11 @@ def gen_cases(rng, tier):
         for d2 in PROMO:
             if tier == 'quick' and rng.random() < 0.7: continue
             yield {'op': 'promote', 'd1': d1, 'd2': d2, 'f': rng.choice(['mul', 'mul', 'add', 'sub'])}
+    # every element-wise operator on every float dtype, on items that include both zeros (the sign of a zero result is part of the value)
+    for d in ('float16', 'float32', 'float64', 'floatle32', 'bfloat', 'p4binary', 'e4m3mxfp', 'e5m2mxfp', 'e2m1mxfp'):
+        for f, x in (('neg', 0), ('abs', 0), ('add', 0.0), ('add', -0.0), ('sub', 0.0), ('mul', -1.0), ('mul', 1.0), ('rsub', 0.0), ('rsub', -0.0), ('radd', -0.0), ('rmul', -1.0), ('mul', 0.0), ('mul', -0.0)):
+            if tier == 'quick' and rng.random() < 0.5: continue
+            yield {'op': 'program', 'dtype': d, 'items': [0.0, -0.0, 1.5, -2.0, 0.0], 'trail': '', 'steps': [{'op': 'scalar_op', 'f': f, 'x': x}], 'seed': 1}
     # the same programs under options.lsb0: an Array is the same list of items in both bit numberings
     for _ in range(N // 4):
         d = rng.choice(DTYPES)
@@ -106,7 +113,15 @@ def apply_impl(a, st, rng):
     if op == 'getslice':
         r = a[slice(*st['k'])]; return [snap(r), type(r).__name__]
     if op == 'setitem': a[st['i']] = pv(st['v']); return None
-    if op == 'setslice': a[slice(*st['k'])] = [pv(v) for v in st['vs']]; return None
+    if op == 'setslice':
+        vals = [pv(v) for v in st['vs']]
+        kindo = st.get('operand')
+        if kindo in ('array', 'array_trailing'):
+            try: vals = Array(a.dtype, vals, trailing_bits=Bits('0b1') if kindo == 'array_trailing' else None)
+            except Exception: pass          # a value that does not fit: keep the list (the assignment itself must refuse it)
+        elif kindo == 'tuple': vals = tuple(vals)
+        elif kindo == 'generator': vals = (x for x in list(vals))
+        a[slice(*st['k'])] = vals; return None
     if op == 'delitem': del a[st['i']]; return None
     if op == 'delslice': del a[slice(*st['k'])]; return None
     if op == 'append': return a.append(pv(st['v']))
@@ -353,6 +368,17 @@ def oracle_(c, obs):
             exp = [-v for v in L] if f == 'neg' else ([abs(v) for v in L] if f == 'abs' else [OPS[f](v, x) for v in L])
             if all(enc_item(dt, v) is not None for v in exp):
                 return f"{where}: every item of the element-wise result {exp} fits {dt}, yet the operator raised {r[1]}"
+        if op == 'scalar_op' and r[0] == 'ok' and r[1] != 'skip' and not trail and dtype_info(dt)[0].startswith(('float', 'bfloat')) and st['f'] in ('neg', 'abs', 'add', 'sub', 'mul', 'radd', 'rsub', 'rmul') \
+                and all(isinstance(pv(v), float) for v in L) and not isinstance(st.get('x'), bool):
+            f = st['f']; x = st['x']
+            vals = [pv(v) for v in L]
+            try: exp = [-v for v in vals] if f == 'neg' else ([abs(v) for v in vals] if f == 'abs' else [OPS[f](v, x) for v in vals])
+            except Exception: exp = None
+            if exp is not None and str(r[1][0][4]) == str(dt):
+                want = [enc_item(dt, cv(e)) for e in exp]
+                got = [enc_item(dt, g) for g in r[1][0][0]]
+                if None not in want and want != got:
+                    return f"{where}: element-wise result {r[1][0][0]}, the operator mapped over the items gives {[cv(e) for e in exp]} (compared through their encodings, sign of zero included)"
         if op in ('scalar_op',) and r[0] == 'ok' and r[1] != 'skip' and name in ('uint', 'int') and not trail:
             f = st['f']; x = st['x']
             try:
